@@ -172,3 +172,38 @@ Proof.
   - exists [LMainStart; LRouterSpawn; LReadSend; LSnapCompute; LSnapSend 4; LDeliver]. eexists.
     split; [apply exec_run; vm_compute; reflexivity | reflexivity].
 Qed.
+
+(** ** Source tie: the model and the text of /repo/processing/processing.go (details: Properties/C11.v)
+
+    REGENERATED on every run (translator/pipe.go -> coq/gen/PipeGen.v): [gen_pipe_skeleton], every statement of
+    ProcessFeatures, readFeaturesFromSource, processFeatures, writeFeaturesToTargets, processMultiPolygon and
+    polygonsToMulti as a term of the skeleton language (Pipe/Skeleton.v).  For C10 what matters in it: the type switch
+    of processFeatures with its three send loops (range over the result map / over tmIDs), what is sent
+    (wrapFeatureForTileMatrix(feature, tmID, ..) as source text), the one-polygon / polygonsToMulti branch, the loop
+    nest and the append of processMultiPolygon, the Router's lookup targetChannels[tmID] — the statements [fanout],
+    [merge_parts], [geom_of_polys], [find_writer] of Pipe/Model.v were written from ([model_skeleton] names them).
+    STAYS MODELLED: the model itself; the meaning of the [SOther] statements (their text is compared, not executed). *)
+From Coq Require Import String.
+From Texel Require Import Pipe.Skeleton Pipe.ProofsGenSkeleton.
+From Texel.Gen Require Import PipeGen.
+
+Theorem C10_source_tie_skeleton : gen_pipe_skeleton = model_skeleton.
+Proof. exact gen_skeleton_is_model. Qed.
+Print Assumptions C10_source_tie_skeleton.
+
+(** the regenerated fan-out statements: processMultiPolygon is the loop nest with the append per tile matrix id;
+    the default branch of the type switch sends the untouched geometry (nil) once per tmID, in the order of tmIDs *)
+Example C10_ex_skeleton_fanout :
+  find_func "processMultiPolygon"%string (sk_funcs gen_pipe_skeleton) = Some model_processMultiPolygon
+  /\ find_func "polygonsToMulti"%string (sk_funcs gen_pipe_skeleton) = Some model_polygonsToMulti
+  /\ (exists pre post, fn_body model_processMultiPolygon
+        = (pre ++ [SRange RSlice "_" "polygon" "multiPolygon"
+                    [SOther "newPolygonsPerTileMatrix := f(polygon, tileMatrixIDs)";
+                     SRange RMap "tmID" "newPolygons" "newPolygonsPerTileMatrix"
+                       [SRange RSlice "_" "newPolygon" "newPolygons"
+                          [SOther "newMultiPolygonPerTileMatrix[tmID] = append(newMultiPolygonPerTileMatrix[tmID], newPolygon)"]]]] ++ post)%list)
+  /\ sk_outside gen_pipe_skeleton = [].
+Proof.
+  vm_compute. split; [reflexivity|]. split; [reflexivity|]. split; [|reflexivity].
+  eexists [_]. eexists [_]. reflexivity.
+Qed.
